@@ -723,7 +723,11 @@ func maxInt(cur interface{}, v int) int {
 
 func main() {
 	f := vevid.ParseFlags()
-	rep := vevid.New("C10")
+	prop := "C10"
+	if p := os.Getenv("VERIF_PROP"); p != "" { // part idxflushrace of C11 is this harness' part flushrace
+		prop = p
+	}
+	rep := vevid.New(prop)
 	if pf := os.Getenv("C10_CPUPROFILE"); pf != "" {
 		fh, _ := os.Create(pf)
 		_ = pprof.StartCPUProfile(fh)
@@ -732,8 +736,12 @@ func main() {
 	debug.SetGCPercent(400)
 
 	thorough := f.Thorough()
-	condTexts := buildConditions(lvlBase)
 	logger.RunningAtomicLevel.SetLevel(zapcore.FatalLevel)
+	if f.Part == "flushrace" || f.Part == "idxflushrace" {
+		runFlushRace(f, rep)
+		return
+	}
+	condTexts := buildConditions(lvlBase)
 	r := &runner{rep: rep, f: f, onlyCond: -1, okeys: map[okey]struct{}{},
 		diff: map[diffKey]string{}, diffAt: map[diffKey]string{}, gdiff: map[gdiffKey]string{}, gdiffAt: map[gdiffKey]string{}}
 
